@@ -100,7 +100,7 @@ theorem table_entry_20 (e : Option (Nat × Nat))
 
 /-- **startxref (table).** The saved file is `body ++ "xref\n" … "trailer\n" dict "\nstartxref\n" N "\n%%EOF"`
 with `N = |body|`: `startxref` holds the byte offset of the `xref` keyword, and `Size = max_id + 1`. -/
-theorem save_table_shape (pre : Bytes) (d : Doc) (out : Bytes) (d' : Doc) (hk : d.xrefKind = .table)
+theorem save_table_shape (pre : Bytes) (d : SDoc) (out : Bytes) (d' : SDoc) (hk : d.xrefKind = .table)
     (h : saveFrom pre d = some (out, d')) :
     ∃ body x, out = body ++ (XREF_KW ++ xrefTableLoop x ((List.range (d.maxId + 1)).drop 1) 0 [none] [])
         ++ TRAILER_KW ++ writeObj (.dict d'.trailer) ++ STARTXREF_KW ++ natDigits body.length ++ EOF_KW
@@ -118,7 +118,7 @@ theorem save_table_shape (pre : Bytes) (d : Doc) (out : Bytes) (d' : Doc) (hk : 
     · exact Dict.get_set_same _ _ _
 
 /-- the offset invariant for the whole object section of a saved file -/
-theorem save_offsets (pre : Bytes) (d : Doc) (hlen : (writeObjects d.objects (pre ++ PDF_KW ++ d.version ++ [10] ++ [37] ++ d.binaryMark ++ [10]) []).1.length < 4294967296) :
+theorem save_offsets (pre : Bytes) (d : SDoc) (hlen : (writeObjects d.objects (pre ++ PDF_KW ++ d.version ++ [10] ++ [37] ++ d.binaryMark ++ [10]) []).1.length < 4294967296) :
     OffsetsOk (writeObjects d.objects (pre ++ PDF_KW ++ d.version ++ [10] ++ [37] ++ d.binaryMark ++ [10]) []).1
       (writeObjects d.objects (pre ++ PDF_KW ++ d.version ++ [10] ++ [37] ++ d.binaryMark ++ [10]) []).2 :=
   writeObjects_offsets _ _ [] (by intro n off g h; simp [XrefMap.get] at h) hlen
@@ -126,7 +126,7 @@ theorem save_offsets (pre : Bytes) (d : Doc) (hlen : (writeObjects d.objects (pr
 /-- **startxref (cross-reference stream).** The saved file is `body ++ (N+1) 0 obj … endobj "\nstartxref\n" |body| "\n%%EOF"`:
 `startxref` holds the offset of the cross-reference stream's own header, whose number is the old
 max_id + 1; `Size = max_id + 2`, `W = [1 4 2]`, `Type = XRef`, `Length` = the content length. -/
-theorem save_stream_shape (pre : Bytes) (d : Doc) (out : Bytes) (d' : Doc) (hk : d.xrefKind = .stream)
+theorem save_stream_shape (pre : Bytes) (d : SDoc) (out : Bytes) (d' : SDoc) (hk : d.xrefKind = .stream)
     (h : saveFrom pre d = some (out, d')) :
     ∃ body content, out = body ++ writeIndirect (d.maxId + 1) 0 (.stream d'.trailer content)
         ++ STARTXREF_KW ++ natDigits body.length ++ EOF_KW
